@@ -8,7 +8,7 @@
     process status of every run against spec/DriverTrace.tla.  A rejected trace is the VIOLATION.
 Level: exploration (small-scope enumeration around valid programs, not coverage-guided fuzzing)."""
 import json, os, random, re, shutil, concurrent.futures as cf
-from .. import build, render, gen, tlc, drivertrace as dt
+from .. import build, render, gen, tlc, tlaval, drivertrace as dt
 from ..common import workdir, seed, Result, NCPU, SPEC, write_data
 from ..evidence import finish
 
@@ -86,16 +86,27 @@ def run(tier, replay=None):
             continue
         res.add_tlc(r); res.count("single_mutants_enumerated", r["distinct"])
         collect(r["json"], base, "single")
-    d = os.path.join(wd, "mut_walks")
+    # random walks of up to 4 mutations: TLC simulation mode, the traces are dumped to files and read back
+    d = os.path.join(wd, "mut_walks"); os.makedirs(os.path.join(d, "tr"), exist_ok=True)
     write_data(d, "MutateData", {"Seeds": seed_toks})
-    r = tlc.run_tlc(os.path.join(SPEC, "MC_Mutate.tla"), os.path.join(SPEC, "MC_MutateN.cfg"), d, lib=d, timeout=1800,
-                    simulate="num=%d" % (300 if quick else 6000), extra=("-depth", "6", "-seed", str(seed())))
+    walkers = 4
+    r = tlc.run_tlc(os.path.join(SPEC, "MC_Mutate.tla"), os.path.join(SPEC, "MC_MutateN.cfg"), d, lib=d, timeout=2400, workers=walkers,
+                    simulate="file=%s,num=%d" % (os.path.join(d, "tr", "w"), (40 if quick else 600) // walkers),
+                    extra=("-depth", "6", "-seed", str(seed())))
     if not r["ok"]:
         res.infra_errors.append("MC_Mutate (walks): %s" % (r["error"] or r["violated"]))
     else:
-        before = len(mutants)
-        collect(r["json"], 0, "walk")
+        before = len(mutants); js = []
+        for fn in sorted(os.listdir(os.path.join(d, "tr"))):
+            txt = open(os.path.join(d, "tr", fn)).read()
+            for st in txt.split("STATE_")[1:]:
+                body = st.split("\n\n")[0]                       # the conjuncts of one state; long values are wrapped over lines
+                f = dict(m.groups() for m in (re.match(r"(\w+) = (.*)$", c, re.S) for c in body.split("\n/\\ ")[1:]) if m)
+                js.append({"tag": "MUT", "s": int(f["s"]), "k": int(f["k"]), "last": tlaval.parse(f["last"]), "toks": tlaval.parse(f["toks"])})
+        collect(js, 0, "walk")
+        res.cov["walks"] = len(os.listdir(os.path.join(d, "tr")))
         res.cov["walk_mutants"] = len(mutants) - before
+        shutil.rmtree(os.path.join(d, "tr"), ignore_errors=True)
 
     # ---- raw bytes inside tokens (offsets sampled by the glue) ---------------------------------------------------
     jobs = []             # (label, bytes, args)
@@ -109,6 +120,9 @@ def run(tier, replay=None):
                 for args in ((), ("--no-preprocessor",)):
                     jobs.append(("raw%d" % nraw, tb[:pos] + rb + tb[pos:], args)); nraw += 1
     res.cov["raw_byte_runs"] = nraw
+    frac = os.environ.get("VERIF_C14_SAMPLE")    # developer knob for scratch experiments (mutation testing): fraction of the inputs to run
+    if frac:
+        jobs = [j for j in jobs if rng.random() < float(frac) or mutants.get(j[1], {"k": 1})["k"] == 0]
 
     # ---- (T) run everything, validate every trace ----------------------------------------------------------------
     rundir = os.path.join(wd, "runs")
